@@ -100,9 +100,16 @@ def composite_codec_get_free_parameters(codec: CompositeCodec) -> List[Parameter
 
 def composite_codec_get_coded_const_prefix(codec: CompositeCodec,
                                            request_prefix: bytes = b'') -> bytes:
-    encode_state = EncodeState(coded_message=bytearray(), triggering_request=request_prefix)
+    encode_state = EncodeState(
+        coded_message=bytearray(), triggering_request=request_prefix, is_end_of_pdu=False)
 
     for param in codec.parameters:
+        if id(param) == id(codec.parameters[-1]):
+            # only the last parameter is located at the end of the
+            # PDU. (this e.g., matters for constants that use
+            # MIN-MAX-LENGTH-TYPE with a termination sequence.)
+            encode_state.is_end_of_pdu = True
+
         if (isinstance(param, MatchingRequestParameter) and
                 param.request_byte_position + param.byte_length <= len(request_prefix)) or \
             isinstance(param, (CodedConstParameter, PhysicalConstantParameter)):
